@@ -1,6 +1,7 @@
 package simrt
 
 import (
+	"context"
 	"fmt"
 	"testing"
 )
@@ -152,6 +153,39 @@ func TestRendezvousDeterministic(t *testing.T) {
 		}
 		if hashes[0] != hashes[1] || hashes[1] != hashes[2] {
 			t.Fatalf("seed %d: log hashes differ: %v", seed, hashes)
+		}
+	}
+}
+
+func TestCtxAfterFunc(t *testing.T) {
+	for seed := uint64(1); seed <= 100; seed++ {
+		out, res := runRV(seed, func(res *[]string) {
+			ctx, cancel := WithCancel(context.Background())
+			done := make(chan struct{}, 2)
+			x := 0
+			stop := CtxAfterFunc(ctx, func() {
+				x++ // ordered after the cancel by the context
+				SendWait(1, done)
+				done <- struct{}{}
+			})
+			_ = stop
+			ctx2, cancel2 := WithCancel(context.Background())
+			stop2 := CtxAfterFunc(ctx2, func() { *res = append(*res, "must not run") })
+			if !stop2() {
+				*res = append(*res, "stop reported false")
+			}
+			cancel2()
+			x = 41
+			cancel()
+			RecvWait(2, done)
+			<-done
+			*res = append(*res, fmt.Sprint(x))
+		})
+		if out.Machinery != "" || len(out.Parked) > 0 || len(out.Crashes) > 0 {
+			t.Fatalf("seed %d: machinery=%q parked=%v crashes=%v", seed, out.Machinery, out.Parked, out.Crashes)
+		}
+		if fmt.Sprint(res) != "[42]" {
+			t.Fatalf("seed %d: %v", seed, res)
 		}
 	}
 }
